@@ -27,6 +27,20 @@ def scenarios(ctx, n):
                     recs=[dict(id=1, topic=1, part=0, off=10, epoch=1, cls="P", delay_us=80000),
                           dict(id=2, topic=1, part=0, off=11, epoch=1, cls="R", delay_us=0),
                           dict(id=3, topic=1, part=0, off=12, epoch=1, cls="R", delay_us=0)]))
+    # leader-epoch rewind inside one assignment (log truncated after an unclean leader election): offsets are handed out again
+    # under a higher epoch; every record the consumer was handed must enter the pipeline, old-epoch records that were
+    # replaced no longer count
+    for j in range(3):
+        n1 = rng.randint(2, 6)
+        back = rng.randint(1, n1 - 1)
+        n2 = back + rng.randint(1, 4)
+        o = rng.choice([0, 100, 2 ** 20])
+        e = rng.choice([0, 5, 65534])
+        recs = [dict(id=i + 1, topic=0, part=1, off=o + i, epoch=e, cls="P", delay_us=rng.choice([0, 50, 300])) for i in range(n1)]
+        recs += [dict(id=n1 + i + 1, topic=0, part=1, off=o + n1 - back + i, epoch=e + 1, cls=rng.choice(["P", "P", "D"]),
+                      delay_us=rng.choice([0, 50, 300])) for i in range(n2)]
+        out.append(dict(run=100000 + j, name="epoch-rewind-%d" % j, workers=rng.choice([1, 2]), batch=rng.choice([1, 2]), cap=16, single=True,
+                        seed=ctx.seed * 31 + j, recs=recs))
     for k in range(n):
         run = k + 2
         nrec = rng.randint(2, 14)
